@@ -278,6 +278,13 @@ class Walker:
     def r_If(self, e, st):
         c = e['cond']
         if c['k'] == 'Let':
+            # `if let PAT = tokens.peek()/next() { A } else { B }` is the two-arm match { PAT => A, _ => B }
+            probe = self.run(c['expr'], st)
+            if len(probe) == 1 and probe[0][1] == 'val' and probe[0][2][0] in ('peek', 'next'):
+                fake = {'k': 'Match', 'loc': e['loc'], 'source': 'IfLetDesugar', 'scrutinee': c['expr'],
+                        'arms': [{'pat': c['pat'], 'guard': None, 'body': e['then']},
+                                 {'pat': {'k': 'Wild', 'loc': e['loc']}, 'guard': None, 'body': e['else'] if e['else'] is not None else {'k': 'Tuple', 'fields': [], 'loc': e['loc']}}]}
+                return self.r_Match(fake, st)
             raise Undec('`if let` on %s in a parse function' % pp(c['expr'])[:60], e['loc'])
         out = []
         for (s, k, v) in self.run(c, st):
